@@ -295,6 +295,15 @@ pub fn log(ev: Value) {
     }
 }
 
+/// Best effort (used from the abort handler): the events logged so far, if the scheduler state can be had.
+pub fn try_events() -> Option<Vec<Value>> {
+    match SCHED.m.try_lock() {
+        Ok(g) => Some(g.events.clone()),
+        Err(std::sync::TryLockError::Poisoned(p)) => Some(p.into_inner().events.clone()),
+        Err(_) => None,
+    }
+}
+
 pub fn with<R>(f: impl FnOnce(&mut Inner) -> R) -> R {
     let mut g = lock();
     f(&mut g)
